@@ -40,12 +40,12 @@ PROPS["C19"] = dict(
     design_ref="4/C19",
     assumptions=["cache entry keys are at least as long as the locus", "ties in distance may be enumerated in any order"],
     subs=[
-        R("C19.foreach_order", "kad", "TestC19ForEachOrder", 30000, 400000),
-        R("C19.foreach_matching", "kad", "TestC19Matching", 20000, 200000),
-        R("C19.distance_laws_random", "kad", "TestC19DistanceLawsRandom", 50000, 500000),
+        R("C19.foreach_order", "kad", "TestC19ForEachOrder", 30000, 3200000),
+        R("C19.foreach_matching", "kad", "TestC19Matching", 20000, 1600000),
+        R("C19.distance_laws_random", "kad", "TestC19DistanceLawsRandom", 50000, 4000000),
         P("C19.distance_laws_exhaustive", "kad", "TestC19DistanceLawsExhaustive"),
-        R("C19.node_list_nearest", "kad", "TestC19NodeInfos", 10000, 80000),
-        F("C19.fuzz_distance_laws", "kad", "FuzzDistanceLaws"),
+        R("C19.node_list_nearest", "kad", "TestC19NodeInfos", 10000, 640000),
+        F("C19.fuzz_distance_laws", "kad", "FuzzDistanceLaws", 90),
     ],
 )
 
@@ -70,10 +70,10 @@ PROPS["C20"] = dict(
     design_ref="4/C20",
     assumptions=["the all-zero PeerID is the library's 'no peer' sentinel and is not used as a node id", "adversarial responders draw fabricated ids from a finite pool"],
     subs=[
-        R("C20.find_node", "kad", "TestC20FindNode", 8000, 60000),
-        R("C20.join", "kad", "TestC20Join", 8000, 60000),
-        R("C20.get", "kad", "TestC20Get", 8000, 60000),
-        R("C20.put", "kad", "TestC20Put", 8000, 60000),
+        R("C20.find_node", "kad", "TestC20FindNode", 8000, 600000),
+        R("C20.join", "kad", "TestC20Join", 8000, 600000),
+        R("C20.get", "kad", "TestC20Get", 8000, 600000),
+        R("C20.put", "kad", "TestC20Put", 8000, 600000),
     ],
 )
 
@@ -85,11 +85,11 @@ PROPS["C17"] = dict(
     design_ref="4/C17",
     assumptions=["object identifier arcs fit encoding/asn1's decoder (31 bits)", "p2pkeswarm and quicswarm default fingerprinters are different functions by design; only 'function of the key alone' is asserted for each"],
     subs=[
-        R("C17.key_roundtrip", "codec", "TestC17KeyRoundTrip", 30000, 400000),
-        R("C17.wire_independence", "codec", "TestC17WireIndependence", 15000, 200000),
-        R("C17.peerid_text", "codec", "TestC17PeerIDText", 40000, 400000),
-        F("C17.fuzz_key_parse", "codec", "FuzzKeyParse"),
-        F("C17.fuzz_peerid_text", "codec", "FuzzPeerIDText"),
+        R("C17.key_roundtrip", "codec", "TestC17KeyRoundTrip", 30000, 2400000),
+        R("C17.wire_independence", "codec", "TestC17WireIndependence", 15000, 1200000),
+        R("C17.peerid_text", "codec", "TestC17PeerIDText", 40000, 2400000),
+        F("C17.fuzz_key_parse", "codec", "FuzzKeyParse", 90),
+        F("C17.fuzz_peerid_text", "codec", "FuzzPeerIDText", 90),
     ],
 )
 
@@ -101,10 +101,10 @@ PROPS["C16"] = dict(
     design_ref="4/C16",
     assumptions=["multi-transport scheme names are non-empty and drawn from the URI scheme alphabet"],
     subs=[
-        R("C16.generated", "codec", "TestC16Generated", 30000, 500000),
-        R("C16.arbitrary_text", "codec", "TestC16ArbitraryText", 30000, 500000),
-        F("C16.fuzz_addr_parse", "codec", "FuzzAddrParse"),
-        R("C16.harvested", "swarms", "TestC16Harvested", 60, 2500, shrink=10, quick=dict(checks=60, shards=2, timeout=600)),
+        R("C16.generated", "codec", "TestC16Generated", 30000, 2500000),
+        R("C16.arbitrary_text", "codec", "TestC16ArbitraryText", 30000, 2500000),
+        F("C16.fuzz_addr_parse", "codec", "FuzzAddrParse", 90),
+        R("C16.harvested", "swarms", "TestC16Harvested", 60, 5000, shrink=10, quick=dict(checks=60, shards=2, timeout=600)),
     ],
 )
 
@@ -117,7 +117,7 @@ PROPS["C06"] = dict(
     assumptions=["sessions do not expire during a schedule (fixed clock)"],
     subs=[
         P("C06.schedules_exhaustive", "ke", "TestC06Exhaustive", qto=600, tto=3000),
-        R("C06.schedules_random", "ke", "TestC06Random", 6000, 60000),
+        R("C06.schedules_random", "ke", "TestC06Random", 6000, 180000),
     ],
 )
 
@@ -129,7 +129,7 @@ PROPS["C03"] = dict(
     design_ref="4/C03",
     assumptions=["the adversary cannot forge signatures or break the Noise key exchange", "a lifted signature whose signed data differs from the transcript cannot verify (collision resistance)"],
     subs=[
-        R("C03.forgery", "ke", "TestC03Forgery", 10000, 120000, steps=30),
+        R("C03.forgery", "ke", "TestC03Forgery", 10000, 960000, steps=30),
     ],
 )
 
@@ -141,11 +141,11 @@ PROPS["C02"] = dict(
     design_ref="4/C02",
     assumptions=["the adversary cannot forge AEAD tags", "channel-level checks use real timers with rekey interval ~150 ms"],
     subs=[
-        R("C02.session_dolev_yao", "ke", "TestC02Session", 5000, 80000, steps=40),
+        R("C02.session_dolev_yao", "ke", "TestC02Session", 5000, 320000, steps=40),
         R("C02.session_concurrent_send", "ke", "TestC02SessionConcurrentSend", 400, 20000),
-        R("C02.channel_rotation", "kechan", "TestC02ChannelRotation", 16, 600, shrink=5, quick=dict(checks=16, shards=4, timeout=600)),
-        R("C02.concurrent_send", "kechan", "TestC02ConcurrentSend", 40, 1500, shrink=5, quick=dict(checks=40, shards=2, timeout=600)),
-        R("C02.swarm_burst", "swarms", "TestC02SwarmBurst", 120, 6000, quick=dict(shards=2, timeout=600)),
+        R("C02.channel_rotation", "kechan", "TestC02ChannelRotation", 16, 1200, shrink=5, quick=dict(checks=16, shards=4, timeout=600)),
+        R("C02.concurrent_send", "kechan", "TestC02ConcurrentSend", 40, 3000, shrink=5, quick=dict(checks=40, shards=2, timeout=600)),
+        R("C02.swarm_burst", "swarms", "TestC02SwarmBurst", 120, 12000, quick=dict(shards=2, timeout=600)),
     ],
 )
 
@@ -169,11 +169,11 @@ PROPS["C07"] = dict(
     design_ref="4/C07",
     assumptions=["convergence is judged against max(50 x HandshakeBackoff, 2 s) with RejectAfter 10x larger", "the restarted peer has something to send (a restart while the surviving side waits in the handshake and the restarted side stays silent is recorded separately)"],
     subs=[
-        R("C07.converge_after_faults", "kechan", "TestC07Converge", 160, 6000, shrink=5, quick=dict(checks=160, shards=4, timeout=600)),
+        R("C07.converge_after_faults", "kechan", "TestC07Converge", 160, 12000, shrink=5, quick=dict(checks=160, shards=4, timeout=600)),
         P("C07.prefix_tree", "kechan", "TestC07PrefixTree", qto=600, tto=3000),
-        R("C07.rekey_flow", "kechan", "TestC07RekeyFlow", 12, 400, shrink=5, quick=dict(checks=12, shards=4, timeout=600)),
-        R("C07.no_idle_teardown", "kechan", "TestC07NoIdleTeardown", 8, 300, shrink=5, quick=dict(checks=8, shards=4, timeout=600)),
-        R("C07.late_duplicates_then_idle", "kechan", "TestC07LateDuplicates", 48, 2000, shrink=5, quick=dict(shards=4, timeout=600)),
+        R("C07.rekey_flow", "kechan", "TestC07RekeyFlow", 12, 800, shrink=5, quick=dict(checks=12, shards=4, timeout=600)),
+        R("C07.no_idle_teardown", "kechan", "TestC07NoIdleTeardown", 8, 600, shrink=5, quick=dict(checks=8, shards=4, timeout=600)),
+        R("C07.late_duplicates_then_idle", "kechan", "TestC07LateDuplicates", 48, 4000, shrink=5, quick=dict(shards=4, timeout=600)),
     ],
 )
 
@@ -185,9 +185,10 @@ PROPS["C01"] = dict(
     design_ref="4/C01",
     assumptions=["loss is permitted, duplication is not judged by C01"],
     subs=[
-        R("C01.mem_stacks", "swarms", "TestC01Mem", 300, 12000, shrink=10, quick=dict(checks=300, shards=4, timeout=600)),
-        R("C01.secure_and_udp_stacks", "swarms", "TestC01Net", 40, 1500, shrink=10, quick=dict(checks=40, shards=4, timeout=600)),
+        R("C01.mem_stacks", "swarms", "TestC01Mem", 300, 18000, shrink=10, quick=dict(checks=300, shards=4, timeout=600)),
+        R("C01.secure_and_udp_stacks", "swarms", "TestC01Net", 40, 2250, shrink=10, quick=dict(checks=40, shards=4, timeout=600)),
         R("C01.address_takeover", "secure", "TestC01AddressTakeover", 36, 1500, quick=dict(shards=3, timeout=600)),
+        R("C01.deadline_during_tell", "swarms", "TestC01Deadline", 120, 5000, shrink=10, quick=dict(shards=2, timeout=600)),
     ],
 )
 
@@ -199,8 +200,8 @@ PROPS["C09"] = dict(
     design_ref="4/C09",
     assumptions=["QUIC path-MTU probes rejected by the inner transport are not size rejections of application payloads", "loss of accepted payloads is allowed; deliveries must be complete"],
     subs=[
-        R("C09.mtu_honest", "swarms", "TestC09MTU", 400, 16000, shrink=10, quick=dict(checks=400, shards=4, timeout=600)),
-        R("C09.mux_several_channels", "swarms", "TestC09MuxChannels", 200, 10000, shrink=10),
+        R("C09.mtu_honest", "swarms", "TestC09MTU", 400, 40000, shrink=10, quick=dict(checks=400, shards=4, timeout=600)),
+        R("C09.mux_several_channels", "swarms", "TestC09MuxChannels", 200, 25000, shrink=10),
     ],
 )
 
@@ -212,9 +213,9 @@ PROPS["C15"] = dict(
     design_ref="4/C15",
     assumptions=["frames are compared pairwise among generated cases only"],
     subs=[
-        R("C15.framing", "swarms", "TestC15Framing", 8000, 200000),
-        R("C15.isolation", "swarms", "TestC15Isolation", 300, 15000, quick=dict(checks=300, shards=2, timeout=600)),
-        R("C15.concurrent_senders", "swarms", "TestC15Concurrent", 150, 8000),
+        R("C15.framing", "swarms", "TestC15Framing", 8000, 500000),
+        R("C15.isolation", "swarms", "TestC15Isolation", 300, 37500, quick=dict(checks=300, shards=2, timeout=600)),
+        R("C15.concurrent_senders", "swarms", "TestC15Concurrent", 150, 20000),
     ],
 )
 
@@ -226,9 +227,9 @@ PROPS["C10"] = dict(
     design_ref="4/C10",
     assumptions=["senders are honest and do not reuse message ids within the reassembly window"],
     subs=[
-        R("C10.fragswarm", "swarms", "TestC10Frag", 1500, 30000),
-        R("C10.mbapp", "swarms", "TestC10Mbapp", 1000, 25000, quick=dict(checks=1000, shards=2, timeout=600)),
-        R("C10.mbapp_reply_vs_tell", "swarms", "TestC10MbappBidi", 120, 6000, quick=dict(checks=120, shards=2, timeout=600)),
+        R("C10.fragswarm", "swarms", "TestC10Frag", 1500, 60000),
+        R("C10.mbapp", "swarms", "TestC10Mbapp", 1000, 50000, quick=dict(checks=1000, shards=2, timeout=600)),
+        R("C10.mbapp_reply_vs_tell", "swarms", "TestC10MbappBidi", 120, 12000, quick=dict(checks=120, shards=2, timeout=600)),
         P("C10.two_message_interleavings", "swarms", "TestC10Exhaustive"),
         R("C10.slow_gc_epochs", "swarms", "TestC10SlowEpochs", 1, 8, shrink=0, quick=dict(skip=True), thorough=dict(timeout=1200)),
     ],
@@ -249,9 +250,9 @@ PROPS["C08"] = dict(
         R("C08.p2pke_session_channel", "crash", "TestC08Session", 500, 25000),
         R("C08.p2pkeswarm_multiswarm_dht", "crash", "TestC08SwarmsAndDHT", 500, 25000),
         R("C08.quic_raw_peer", "crash", "TestC08QuicRawPeer", 200, 6000, quick=dict(shards=2, timeout=600)),
-        F("C08.fuzz_session_deliver", "crash", "FuzzSessionDeliver"),
-        F("C08.fuzz_frag_packet", "crash", "FuzzFragPacket"),
-        F("C08.fuzz_mux_packet", "crash", "FuzzMuxPacket"),
+        F("C08.fuzz_session_deliver", "crash", "FuzzSessionDeliver", 60),
+        F("C08.fuzz_frag_packet", "crash", "FuzzFragPacket", 60),
+        F("C08.fuzz_mux_packet", "crash", "FuzzMuxPacket", 60),
         F("C08.fuzz_mbapp_header", "crash", "FuzzMbappHeader", 20),
     ],
 )
@@ -278,8 +279,8 @@ PROPS["C12"] = dict(
     design_ref="4/C12",
     assumptions=["3 s / 1 s thresholds separate 'promptly' from 'never'", "goroutines are attributed to the library by a frame of the module path in their stack"],
     subs=[
-        R("C12.close_generated_stacks", "swarms", "TestC12Close", 160, 6000, shrink=10, quick=dict(checks=160, shards=4, timeout=900)),
-        R("C12.close_ssh", "swarms", "TestC12CloseSSH", 12, 400, shrink=10, quick=dict(checks=12, shards=2, timeout=600)),
+        R("C12.close_generated_stacks", "swarms", "TestC12Close", 160, 9000, shrink=10, quick=dict(checks=160, shards=4, timeout=900)),
+        R("C12.close_ssh", "swarms", "TestC12CloseSSH", 12, 600, shrink=10, quick=dict(checks=12, shards=2, timeout=600)),
     ],
 )
 
@@ -291,11 +292,11 @@ PROPS["C13"] = dict(
     design_ref="4/C13",
     assumptions=["cancellation promptness threshold 500 ms", "after the commit point a deliverer waits for the callback regardless of its own context (the statement's rule)"],
     subs=[
-        R("C13.tellhub_histories", "hubs", "TestC13TellHub", 600, 60000),
-        R("C13.askhub_histories", "hubs", "TestC13AskHub", 600, 60000),
-        R("C13.queue_histories", "hubs", "TestC13Queue", 400, 40000),
-        R("C13.queue_stampede", "hubs", "TestC13QueueStampede", 100, 6000),
-        R("C13.swarm_cancel", "hubs", "TestC13SwarmCancel", 120, 6000, quick=dict(checks=120, shards=4, timeout=600)),
+        R("C13.tellhub_histories", "hubs", "TestC13TellHub", 600, 120000),
+        R("C13.askhub_histories", "hubs", "TestC13AskHub", 600, 120000),
+        R("C13.queue_histories", "hubs", "TestC13Queue", 400, 80000),
+        R("C13.queue_stampede", "hubs", "TestC13QueueStampede", 100, 12000),
+        R("C13.swarm_cancel", "hubs", "TestC13SwarmCancel", 120, 12000, quick=dict(checks=120, shards=4, timeout=600)),
     ],
 )
 
